@@ -199,7 +199,10 @@ func c06RootCause(a, p c06State) string {
 			continue
 		}
 		parent := strings.TrimSuffix(parts[1], "(deleted)")
-		if parts[0] != a.RevTree && !pl[parts[0]] && pl[parent] && p.RevTree == parent && !p.Deleted {
+		// (the revision the passive side made its winner was written on the active side: it is the active side's own
+		// branch that lost there. A tombstone the active side put on a revision of the passive side's making is a
+		// different mechanism and is not recognised here.)
+		if parts[0] != a.RevTree && !pl[parts[0]] && pl[parent] && p.RevTree == parent && !p.Deleted && strings.Contains(p.Body, `"by":"A"`) {
 			return "losing-branch-tombstone-not-propagated"
 		}
 	}
@@ -306,7 +309,11 @@ func c06History(t testing.TB, r *vreport.Report, c c06Case, peers TestISGRPeers,
 		}
 		a, p := c06Read(w.active, docID), c06Read(w.passive, docID)
 		if !refused() && (a.Exists != p.Exists || a.Deleted != p.Deleted || a.Body != p.Body) {
-			r.Violate("C06/diverged-after-per-direction-catch-up/"+tag+"/"+strings.Join(c.Ops, ","), fmt.Sprintf("after pull and push (resuming from their checkpoints) transfer nothing more: active=%+v passive=%+v; %s", a, p, c), c)
+			if cause := c06RootCause(a, p); cause != "" {
+				r.Violate("C06/diverged/"+cause+"/"+tag0, fmt.Sprintf("after pull and push (resuming from their checkpoints) transfer nothing more: active=%+v passive=%+v; %s", a, p, c), c)
+			} else {
+				r.Violate("C06/diverged-after-per-direction-catch-up/"+tag+"/"+strings.Join(c.Ops, ","), fmt.Sprintf("after pull and push (resuming from their checkpoints) transfer nothing more: active=%+v passive=%+v; %s", a, p, c), c)
+			}
 			return true
 		}
 	}
